@@ -1105,15 +1105,40 @@ REORDER = {"rev", "sort", "sort_by", "sort_by_key", "sort_unstable", "sort_unsta
            "retain", "reverse", "swap_remove", "rotate_left", "rotate_right", "skip", "step_by", "take", "truncate", "pop", "split_off", "drain", "last", "nth"}
 
 
+def head_tail_calls(body):
+    """ids of the `.first()` / `.skip(1)` calls that together form the head / tail idiom over one list:
+    `if let Some(h) = xs.first() { E(h); for x in xs.iter().skip(1) { SEP; E(x) } }` renders every element once, in order"""
+    firsts, skips = {}, {}
+    for c in H.calls(body):
+        if c.get("k") != "mcall":
+            continue
+        if c["name"] == "first" and not c.get("args"):
+            firsts.setdefault(T.text(c["recv"]), []).append(c)
+        if c["name"] == "skip" and len(c.get("args") or []) == 1:
+            a = H.peel_ref(c["args"][0])
+            r = H.peel_ref(c["recv"])
+            if a.get("k") == "lit" and a["lit"]["v"] == 1 and r.get("k") == "mcall" and r["name"] in ("iter", "into_iter") and not r.get("args"):
+                skips.setdefault(T.text(r["recv"]), []).append(c)
+    ok = set()
+    for base in set(firsts) & set(skips):
+        if len(firsts[base]) == 1 and len(skips[base]) == 1:
+            ok.add(id(firsts[base][0]))
+            ok.add(id(skips[base][0]))
+    return ok
+
+
 def check_order(run, rule, f, cfg, select):
     """renderers iterate clause vectors forward and completely: no reordering / truncating adaptor"""
     n = 0
     for name, t, err in T.sink_fns(f):
         if err is not None or not select(name):
             continue
+        idiom = head_tail_calls(t.body)
         for c in H.calls(t.body):
             if c.get("k") == "mcall":
                 n += 1
+                if id(c) in idiom:
+                    continue
                 if c["name"] in REORDER and "Tokenizer" not in (c.get("callee") or "") and "Peekable" not in (c.get("callee") or "") and \
                         not ((c.get("callee") or "").startswith("core::option::Option") or (c.get("callee") or "").startswith("core::str::")):
                     run.ob(rule, "reorder:%s:%s" % (name, c["name"]), False,
